@@ -10,6 +10,7 @@
     [fin_calls st fin] is the batch of calls of the finalisation. *)
 From TT Require Import Tunnel.ReceiverSpec Tunnel.ReceiverInv Tunnel.ReceiverHistInv
   Tunnel.ReceiverFinalize Tunnel.ReceiverFinalizeProofs Tunnel.ReceiverOrder Tunnel.ReceiverOrderProofs
+  Tunnel.ReceiverRestoreOrder Tunnel.ReceiverRestoreOrderProofs
   Judge.Recv Judge.RecvProofs.
 From stdpp Require Import gmap.
 
@@ -189,6 +190,30 @@ Theorem C04_balance_any_order :
   ∀ steps obs' h, Forall2 obs_reorder (hist_run hist_init steps) obs' →
   bal (all_calls obs') h = bal (all_calls (hist_run hist_init steps)) h.
 Proof. exact balance_any_order. Qed.
+
+(** The iteration orders as a parameter of the model itself ([Tunnel/ReceiverRestoreOrder.v]):
+    [hist_run_ord orc] runs a history with every [new] iterating the persisted metadata, and every
+    finalisation iterating the entered map and the uncommitted set, in the orders the oracle [orc]
+    picks for that step (any permutations; the arena then grows in another order, which no later
+    step can observe).  The model's own run is the identity oracle. *)
+Theorem C04_model_is_identity_oracle :
+  ∀ steps h, hist_run_ord (λ _, order_id) h steps = hist_run h steps.
+Proof. exact hist_run_ord_id. Qed.
+
+Theorem C04_every_order_is_a_reordering :
+  ∀ orc steps, oracle_ok orc →
+  Forall2 obs_reorder (hist_run hist_init steps) (hist_run_ord orc hist_init steps).
+Proof. exact hist_run_ord_reorder. Qed.
+
+(** for every choice of iteration orders, the run in those orders restores the host's context *)
+Theorem C04_host_context_restored_every_order :
+  ∀ orc (ls : list life) stk, oracle_ok orc →
+  Forall (λ l : life, is_recv (snd l) = false) ls →
+  hist_scope hist_init (lives_steps ls) → wf_drop_lives hist_init ls = true →
+  (∀ h, h ∈ stk → (h <= w_next (h_w hist_init))%N) →
+  let obs' := hist_run_ord orc hist_init (lives_steps ls) in
+  stack_apply stk (all_calls obs') = stk ∧ current (stack_apply stk (all_calls obs')) = current stk.
+Proof. exact host_context_restored_every_order. Qed.
 
 (** what the correspondence check establishes: when the judge finds the implementation's batch [b]
     equal to the model's batch [a] ([batch_eqb]), [b] - in the order in which the implementation made
